@@ -30,6 +30,18 @@ def broadcast {φ : Type} (g : Elem φ → Option (Resp α)) (a : Arg φ) : Out 
 def freqCallSpec [DecidableEq α] {φ : Type} (pt : φ → α) (t : Bank α) (a : Arg φ) : Out α :=
   broadcast (respElem (fun f => Bank.spec (pt f) t) t.isLeaf) a
 
+/-- any call `t.freq_response(*args, **kwargs)`: when python can bind it to `(self, freq)` the
+    broadcast over the object bound to `freq`; otherwise every element computation is the TypeError
+    of the binding (KeyError when the wrapper finds no frequency object at all) -/
+def freqCallSpecFull [DecidableEq α] {φ : Type} (pt : φ → α) (t : Bank α) (args : List (Arg φ)) (kwargs : KwArgs φ) :
+    Out α :=
+  match bindParams ["self", "freq"] args kwargs with
+  | some [_, a] => freqCallSpec pt t a
+  | _ =>
+    match (if 1 < args.length then args[1]? else kwGet "freq" kwargs) with
+    | none => .raised .keyError
+    | some a => broadcast (fun _ => some .typeError) a
+
 /-- `dft` with its documented default -/
 def dftCallSpec [DecidableEq α] (bk : BlkKind) (blk : List α) (ws : Option (List α)) (normalize : Option Bool) :
     Except PyErr (List α) :=
